@@ -634,6 +634,7 @@ package litefs
 //@   on call ltx.Encoder.EncodeHeader assert stage == 1 && arg1.MinTXID == old(posOf(db)).TXID + 1 && arg1.MaxTXID == arg1.MinTXID &&
 //@        arg1.PreApplyChecksum == old(posOf(db)).PostApplyChecksum && arg1.PageSize == db.pageSize && arg1.Commit == commit ; then stage = (ret0 == nil ? 2 : stage)
 //@   on call ltx.Encoder.EncodePage assert stage == 2
+//@   on call DB.checksum assume arg1 <= 0xffffff00
 //@   on call DB.checksum assert stage == 2 && arg1 == commit ; then stage = 3, post = ret0
 //@   on call ltx.Encoder.SetPostApplyChecksum assert stage == 3 && arg1 == post ; then stage = 4
 //@   on call ltx.Encoder.Close assert stage == 4 ; then stage = (ret0 == nil ? 5 : stage)
